@@ -150,7 +150,7 @@ def drop_params(line):
 
 @st.composite
 def hostile_line(draw, good):
-    k = draw(st.integers(0, 12))
+    k = draw(st.integers(0, 13))
     if k <= 2 and good:
         cands = drop_params(draw(st.sampled_from(good)))
         if cands:
@@ -159,6 +159,15 @@ def hostile_line(draw, good):
         # a well-formed line whose last parameter is stretched far beyond the protocol's 512 bytes
         cands = [l for l in good if " :" in l] or good
         return draw(st.sampled_from(cands)) + draw(st.sampled_from(["x", "A b ", "\xe9"])) * draw(st.sampled_from([480, 600, 1000, 1024, 1100, 2000, 5000]))
+    if k == 12:
+        # announcements whose address fields use every other notation the address parser knows
+        a = ["10.0.0.0/8", "10.*", "10.1.*", "2001:db8::/32", "2001:db8::/128", "1:2:*", "1::/0", "*", "***", "1.2.3.4/33", "1::2::3", "1:2:3:4:5:6:7:8:9",
+             "1:2:3:4:5:6:7:1.2.3.4", "1:2:3:4:5:6:1.2.3.4", "fe80::1/64", "0::ffff:10.0.0.0/104", "1.2.3/24", "1.2/16", "1/8", "0::/129", "1:2:3:4:5:6:7:8/127",
+             "1.2.3.4.5", "256.1.1.1", "1..2", "0x10.1.1.1", "1:::2", "12345::", "g::1", "1.2.3.4:80", "[::1]", "::1"]
+        x = draw(st.sampled_from(a))
+        y = draw(st.sampled_from(a + ["127.0.0.1"] * 10))
+        return draw(st.sampled_from(["%s C %s 1000 %s 6667", "%s C %s 1000 %s 6667", "%s C %s 65536 %s -1"])) % (draw(st.sampled_from(["5", "6", "900"])), x, y) if draw(st.booleans()) \
+            else "%s C %s 1000 %s 6667" % (draw(st.sampled_from(["5", "6"])), y, x)
     if k == 3:
         return draw(st.sampled_from(["", " ", "\t", "5", "5 ", "-1", "   7   ", "-1 ", "0", " 0 ", "+", "-", "5\t", "\x0b5 N h"]))
     if k == 4:
